@@ -43,5 +43,27 @@ Definition closed_class (sz : list Z) (live : Z) : N :=
   | c => c
   end.
 
+(* every deadline has passed and ONE housekeeping tick has run since ("by expiry once the housekeeping
+   tick has passed their deadline"; "cached replies disappear after the exchange lifetime"): what
+   is kept only until a deadline -- cached replies, block-wise send and reassembly buffers -- is
+   gone after that single tick, however much of it there is.  Message-ID continuations of
+   exchanges without a deadline may still be counting retransmissions at this point. *)
+Definition swept_class (sz : list Z) : N :=
+  if negb (sz_at sz 3 =? 0) then 4%N
+  else if negb (sz_at sz 4 =? 0) then 5%N
+  else if negb (sz_at sz 5 =? 0) then 6%N
+  else 0%N.
+
+(* the same statement for one expiry cache on its own: [ents] = (key, deadline) of the entries held
+   before the tick (None: no deadline), [left] = the keys found after ONE CheckExpirations(now).
+   No entry whose deadline lies before [now] may be left.  (10 = expired entry survived the tick;
+   9 = a key that was never stored.) *)
+Fixpoint deadline_of (ents : list (Z * option Z)) (k : Z) : option (option Z) :=
+  match ents with [] => None | (k', u) :: r => if k' =? k then Some u else deadline_of r k end.
+Definition sweep_class (now : Z) (ents : list (Z * option Z)) (left : list Z) : N :=
+  if existsb (fun k => match deadline_of ents k with None => true | _ => false end) left then 9%N
+  else if existsb (fun k => match deadline_of ents k with Some (Some u) => u <? now | _ => false end) left then 10%N
+  else 0%N.
+
 (* the same as a proposition on the total *)
 Definition total (sz : list Z) : Z := fold_left Z.add sz 0.
